@@ -249,15 +249,23 @@ Proof.
   intros i Hi. apply in_seq in Hi. rewrite H by lia. reflexivity.
 Qed.
 Lemma tucker_fixed_trailing shape rank fixed k :
-  (forall i, memb i fixed = true <-> k <= i) ->
+  (forall i, i < length shape -> (memb i fixed = true <-> k <= i)) ->
   tucker_fixed_old shape rank fixed = tucker_fixed shape rank fixed.
 Proof.
   intros Hf. unfold tucker_fixed_old, tucker_fixed. destruct (negb (length rank =? length shape)); [reflexivity|].
   assert (E : tucker_fixed_cols false shape rank fixed = tucker_fixed_cols true shape rank fixed).
-  { unfold tucker_fixed_cols. apply map_ext_in. intros m Hm. destruct (memb m fixed) eqn:Em; [reflexivity|].
+  { unfold tucker_fixed_cols. apply map_ext_in. intros m Hm. apply in_seq in Hm. destruct (memb m fixed) eqn:Em; [reflexivity|].
     rewrite pos_nonfixed_prefix; [reflexivity|]. intros i Hi. destruct (memb i fixed) eqn:Ei; [|reflexivity].
-    apply Hf in Ei. assert (Hm' : k <= m) by lia. apply Hf in Hm'. congruence. }
+    apply (Hf i ltac:(lia)) in Ei. assert (Hm' : k <= m) by lia. apply (Hf m ltac:(lia)) in Hm'. congruence. }
   now rewrite E.
+Qed.
+(* the hypothesis is satisfiable together with a non-trivial rank list: the last mode of [4;5;6] fixed *)
+Lemma tucker_fixed_trailing_ex :
+  (forall i, i < length [4; 5; 6] -> (memb i [2] = true <-> 2 <= i)) /\
+  tucker_fixed_old [4; 5; 6] [2; 3; 4] [2] = Ok [[2; 3; 4]; [4; 2]; [5; 3]; [6; 4]].
+Proof.
+  split; [|reflexivity]. intros i Hi. simpl in Hi.
+  destruct i as [|[|[|i]]]; simpl; split; intros H; try discriminate; try lia; reflexivity.
 Qed.
 (* otherwise the returned shapes are not the requested ones *)
 Lemma tucker_fixed_misaligned :
